@@ -100,6 +100,9 @@ def _r(v):
 
 
 class Box(object):
+  __iter__ = None  # total __getitem__ must not make the object an endless iterable
+  __contains__ = None
+
   def __init__(self, log):
     object.__setattr__(self, '_log', log)
 
@@ -207,8 +210,8 @@ def run_src(src, inp, fname='f'):
   """Executes fname(*inp) from src on a fresh runtime. Returns {'outcome', 'log', 'state'}."""
   ns, log, o = make_ns()
   old = signal.signal(signal.SIGALRM, _alarm)
-  signal.alarm(120)  # safety net only; the deterministic bound is the line budget below
-  budget = [60000]
+  signal.alarm(60)  # safety net only; the deterministic bound is the line budget below
+  budget = [20000]
 
   def local_trace(frame, event, arg):
     if event == 'line':
@@ -907,7 +910,14 @@ class Gen(object):
     if k == 'sub':
       return '%s.b[%s]' % (self.base(d, scope), self.iexpr(d - 1, scope))
     if k == 'bin':
-      return '(%s %s %s)' % (self.iexpr(d - 1, scope), self.pick(['+', '-', '*']), self.iexpr(d - 1, scope))
+      op = self.pick(['+', '-', '*'])
+      if op == '*':
+        # one factor is a small constant: values then grow at most geometrically even if a broken
+        # transformation turns a bounded loop into one that runs until the step budget
+        fac = self.pick(['0', '1', '2', '3'])
+        other = self.iexpr(d - 1, scope)
+        return '(%s * %s)' % ((fac, other) if self.pct(50) else (other, fac))
+      return '(%s %s %s)' % (self.iexpr(d - 1, scope), op, self.iexpr(d - 1, scope))
     if k == 'un':
       return '(%s%s)' % (self.pick(['-', 'not ']), self.iexpr(d - 1, scope))
     if k == 'cmp':
@@ -1032,7 +1042,7 @@ class Gen(object):
                                                          self.expr(scope), self.expr(scope)))
       return self.accepted(lambda: '%s = rec(%s)' % (self.pick(names), self.coll(self.draw(st.integers(0, self.max_depth - 1)), scope)))
     if k == 'aug':
-      return self.accepted(lambda: '%s %s= %s' % (self.target(scope, names), self.pick(['+', '-', '*']), self.expr(scope)))
+      return self.accepted(lambda: '%s %s= %s' % (self.target(scope, names), self.pick(['+', '-', '+', '-', '|', '^']), self.expr(scope)))
     if k == 'expr':
       return self.accepted(lambda: self.pick(['t(%s)' % self.expr(scope, 0), 'rec(%s)' % self.args(self.max_depth, scope),
                                               'o.m(%s)' % self.args(self.max_depth, scope), self.expr(scope)]))
@@ -1201,7 +1211,7 @@ def cases(draw, params):
 
 def budget(tier):
   if tier == 'thorough':
-    return {'programs': 48000, 'depth': 4, 'nest': 3, 'stmts': 14, 'shrink_s': 60, 'wall_cap': 1500}
+    return {'programs': 48000, 'depth': 4, 'nest': 3, 'stmts': 12, 'shrink_s': 60, 'wall_cap': 1500}
   return {'programs': 4800, 'depth': 3, 'nest': 2, 'stmts': 8, 'shrink_s': 15, 'wall_cap': 600}
 
 
